@@ -80,7 +80,7 @@ fn check_frames(frames: &[Vec<u8>], what: String) -> Result<(), (String, String)
         ));
     }
     // library decode of those bytes yields the identical message, nothing left over
-    let mut dc = codec_after_greeting();
+    let mut dc = codec_after_greeting()?;
     let mut buf = BytesMut::from(&out[..]);
     let r = world::guarded(|| dc.decode(&mut buf))
         .map_err(|p| ("panic/decode".to_string(), format!("decode of {} panicked: {}", what, p)))?;
@@ -104,7 +104,7 @@ fn check_frames(frames: &[Vec<u8>], what: String) -> Result<(), (String, String)
         }
     }
     // and a second decode call on the empty buffer yields nothing
-    match dc.decode(&mut buf) {
+    match world::guarded(|| dc.decode(&mut buf)).map_err(|p| ("panic/decode".to_string(), format!("decode of the empty remainder after {} panicked: {}", what, p)))? {
         Ok(None) => Ok(()),
         other => Err((
             "lib-decode-extra".into(),
@@ -221,7 +221,7 @@ fn check_ready_bytes(out: &[u8], ty: &str, props: &[(String, Vec<u8>)], what: &s
         ));
     }
     // library decode of its own READY
-    let mut dc = codec_after_greeting();
+    let mut dc = codec_after_greeting()?;
     let mut b = BytesMut::from(out);
     match world::guarded(|| dc.decode(&mut b)).map_err(|p| ("panic/decode-ready".to_string(), p))? {
         Ok(Some(it)) if norm(&item_to_ref(&it)) == norm(&d.items[0].0) && b.is_empty() => Ok(()),
